@@ -14,7 +14,8 @@ RULE = ("frames with body length in {0,1,2,3,231,232,233,255,256,257,487,488,489
         "non-zero encapsulation status, sender context and options (framing depends on the length field alone); receive: every subset of the "
         "boundary cut-set {1,2,3,4,5,23,24,25,26,255,256,257,n-2,n-1} as recv split points, every uniform chunk size 1..256, seeded "
         "random compositions; for each frame the peer closes / times out / resets after every prefix-length class; send: every subset "
-        "of the analogous cut-set as partial-send pattern, 0-byte send, error after j bytes; verdict per case from returned bytes, "
+        "of the analogous cut-set as partial-send pattern, 0-byte send, error after j bytes; the `timeout` argument left out / given as its documented default 0 "
+        "positionally / by keyword (the fake socket treats a zero timeout as the OS does: non-blocking); verdict per case from returned bytes, "
         "exception type and a recv/send call budget. distinct = (frame length, segmentation signature | fault class) evaluated")
 ASSUMPTIONS = [
     "one reply frame is in flight at a time (lock-step protocol); recv honours bufsize",
